@@ -180,4 +180,7 @@ theorem C13_attrs (cfg : Cfg) :
 example : Destroyed (destroy (St.init ⟨3600, some 60, [], "/".toList, true, none⟩)) := by
   unfold Destroyed; decide
 
+example : Poor.Base64.decode (Poor.Base64.encode [1, 2, 3, 4, 255]) = some [1, 2, 3, 4, 255] := by decide
+example : Poor.Base64.encode [104, 105] = "aGk=".toList := by decide
+
 end Poor.Props.C13
